@@ -133,3 +133,28 @@ Proof.
   destruct diff_statics as (D1 & D2 & D3 & D4 & D5 & D6).
   exact (roundtrip_diff gen_schema (d_of "Diff") (d_of "Action") (d_of "OSM") v D1 D3 D2 D4 H1 H3 D5 D6 Hwf).
 Qed.
+
+(* ---------- the scanner on the containers' marshalled text ---------- *)
+From Verif Require Import Codec.ProofsScan.
+
+Lemma scan_statics :
+  scan_static gen_schema 15 (d_of "OSM") = true /\ scan_static gen_schema 13 (d_of "OSM") = true.
+Proof. split; vm_compute; reflexivity. Qed.
+
+Theorem scanner_reads_OSM : forall v,
+  wfb gen_schema "OSM" v = true ->
+  exists e, encode1 gen_schema "OSM" v = Ok e
+            /\ scan_el gen_schema e = (osm_objects (d_of "OSM") v, None).
+Proof.
+  intros v Hwf. destruct containers_static as (H1 & H2 & H3 & H4 & H5 & H6). destruct scan_statics as [S1 S2].
+  exact (scanner_osm gen_schema (d_of "OSM") v H1 H3 H4 S1 Hwf).
+Qed.
+
+Theorem scanner_reads_Change : forall v,
+  wfb gen_schema "Change" v = true ->
+  exists e, encode1 gen_schema "Change" v = Ok e
+            /\ scan_el gen_schema e = (change_objects (d_of "Change") (d_of "OSM") v, None).
+Proof.
+  intros v Hwf. destruct containers_static as (H1 & H2 & H3 & H4 & H5 & H6). destruct scan_statics as [S1 S2].
+  exact (scanner_change gen_schema (d_of "Change") (d_of "OSM") v H2 H6 H1 H3 H5 S2 Hwf).
+Qed.
